@@ -61,6 +61,7 @@ func callArg[T any](name string, k int, i int) T    { var z T; return z }
 func atCall(name string, k int, cond bool) bool     { return true }
 func callOrder(a string, i int, b string, j int) bool { return true }
 func callResult[T any](name string, k int) T         { var z T; return z }
+func isType[T any](x any) bool                       { _, ok := x.(T); return ok }
 func fresh(x any) bool                               { return true }
 func seen[K comparable](k K) bool                    { return true }
 func forallKeys[K comparable, V any](m map[K]V, f func(K) bool) bool {
@@ -188,6 +189,14 @@ func slotInfixFn(p *Parser, left ast.Expression) ast.Expression { return nil }
 //@   ensures [no-typed-nil@C11] result == nil || !isNil(result)
 //@   ensures [err-on-nil@C11] implies(isNil(result), len(p.errors) > len(old(p.errors)))
 
+// A built-in expression parser returns nil only after recording an error.
+//@ group exprResult
+//@   ensures [err-on-nil@C11,C13] implies(isNil(result), len(p.errors) > len(old(p.errors)))
+
+// ... or because the operand it was handed was already nil.
+//@ group infixResult
+//@   ensures [err-on-nil@C11,C13] implies(isNil(result), len(p.errors) > len(old(p.errors)) || isNil(left))
+
 //@ func slotStmtFn
 //@   props C04 C11 C16
 //@   abstract
@@ -280,25 +289,42 @@ func lemma_parseFrame_trans(p *Parser) {
 //@   ensures [ok] implies(result, eq(p.CurrentToken, old(p.PeekToken)) && p.CurrentToken.Type == t && len(p.errors) == len(old(p.errors)))
 //@   ensures [fail] implies(!result, len(p.errors) == len(old(p.errors))+1 && eq(p.CurrentToken, old(p.CurrentToken)) && eq(p.PeekToken, old(p.PeekToken)))
 
+// Statement termination. Stated where ECMAScript fixes the answer: an explicit ';' is consumed; end of input and '}'
+// terminate without consuming; after a line break a token that can only begin a statement terminates; on the same
+// line anything else is an error in strict mode. Tolerant mode never records an error here and always continues.
 //@ func (p *Parser) ExpectSemicolonASI
-//@   props C11 C16 C13
+//@   props C11 C16 C13 C02
 //@   use parseFrame ctxStable
 //@   ensures [fail] implies(!result, len(p.errors) == len(old(p.errors))+1)
 //@   ensures [ok] implies(result, len(p.errors) == len(old(p.errors)))
+//@   ensures [tolerant@C13] implies(p.tolerantMode, result && len(p.errors) == len(old(p.errors)))
+//@   ensures [explicit@C02] implies(old(p.PeekToken.Type) == token.SEMICOLON, result && eq(p.CurrentToken, old(p.PeekToken)))
+//@   ensures [virtual@C02] implies(old(p.PeekToken.Type) != token.SEMICOLON, eq(p.CurrentToken, old(p.CurrentToken)) && eq(p.PeekToken, old(p.PeekToken)) && lexer.LexPos(p.lexer) == old(lexer.LexPos(p.lexer)))
+//@   ensures [asi.end@C02] implies(old(p.PeekToken.Type) == token.EOF || old(p.PeekToken.Type) == token.RBRACE, result)
+//@   ensures [asi.newline@C02] implies(old(p.PeekToken.AfterNewline) && startsStatement(old(p.PeekToken.Type)), result)
+//@   ensures [asi.sameline@C02,C13] implies(!p.tolerantMode && !old(p.PeekToken.AfterNewline) && old(p.PeekToken.Type) != token.SEMICOLON && old(p.PeekToken.Type) != token.EOF && old(p.PeekToken.Type) != token.RBRACE, !result)
 
 // ---- the parse-function family ----
 
+// Statement dispatch is a function of the current token's type and equals the subset grammar's statement table.
 //@ func baseParseStatement
-//@   props C11 C16 C04
+//@   props C11 C16 C04 C02
 //@   use parseFrame stmtResult ctxStable
+//@   ensures [dispatch@C02] ncalls("(*Parser).ParseLetStatement") == ite(old(p.CurrentToken.Type) == token.LET, 1, 0) && ncalls("(*Parser).ParseFunctionStatement") == ite(old(p.CurrentToken.Type) == token.FUNCTION, 1, 0) && ncalls("(*Parser).ParseReturnStatement") == ite(old(p.CurrentToken.Type) == token.RETURN, 1, 0) && ncalls("(*Parser).ParseIfStatement") == ite(old(p.CurrentToken.Type) == token.IF, 1, 0) && ncalls("(*Parser).ParseWhileStatement") == ite(old(p.CurrentToken.Type) == token.WHILE, 1, 0) && ncalls("(*Parser).ParseForStatement") == ite(old(p.CurrentToken.Type) == token.FOR, 1, 0) && ncalls("(*Parser).ParseBlockStatement") == ite(old(p.CurrentToken.Type) == token.LBRACE, 1, 0)
+//@   ensures [dispatch.default@C02] ncalls("(*Parser).ParseExpressionStatement") == ite(old(p.CurrentToken.Type) != token.LET && old(p.CurrentToken.Type) != token.FUNCTION && old(p.CurrentToken.Type) != token.RETURN && old(p.CurrentToken.Type) != token.IF && old(p.CurrentToken.Type) != token.WHILE && old(p.CurrentToken.Type) != token.FOR && old(p.CurrentToken.Type) != token.LBRACE, 1, 0)
+//@   atcall * [dispatch.first@C02,C04] eq(p.CurrentToken, old(p.CurrentToken)) && eq(p.PeekToken, old(p.PeekToken))
 
+// The default expression step: one prefix parse, then the climbing loop at the requested binding power.
 //@ func baseParseExpression
-//@   props C11 C16 C04
+//@   props C11 C16 C04 C02
 //@   use parseFrame ctxStable
+//@   ensures [shape@C02,C04] ncalls("(*Parser).ParsePrefixExpression") == 1 && ncalls("(*Parser).ParseRemainingExpressionWithPrecedence") == 1 && callOrder("(*Parser).ParsePrefixExpression", 0, "(*Parser).ParseRemainingExpressionWithPrecedence", 0) && callArg[int]("(*Parser).ParseRemainingExpressionWithPrecedence", 0, 2) == precedence && callArg[ast.Expression]("(*Parser).ParseRemainingExpressionWithPrecedence", 0, 1) == callResult[ast.Expression]("(*Parser).ParsePrefixExpression", 0)
+//@   ensures [result@C02,C04] result == callResult[ast.Expression]("(*Parser).ParseRemainingExpressionWithPrecedence", 0)
 
 //@ func (p *Parser) ParseLetStatement
-//@   props C11 C16
+//@   props C11 C16 C01
 //@   use parseFrame ctxStable
+//@   ensures [node@C01,C08,C15] implies(result != nil, eq(result.Token, old(p.CurrentToken)) && result.Name != nil && result.Name.Value == result.Name.Token.Literal)
 //@   ensures [err-on-nil] implies(result == nil, len(p.errors) > len(old(p.errors)))
 
 //@ func (p *Parser) ParseLetExpression
@@ -306,8 +332,9 @@ func lemma_parseFrame_trans(p *Parser) {
 //@   use parseFrame ctxStable
 
 //@ func (p *Parser) ParseFunctionStatement
-//@   props C11 C16
+//@   props C11 C16 C01
 //@   use parseFrame
+//@   ensures [node@C01,C08,C15] implies(result != nil, eq(result.Token, old(p.CurrentToken)) && result.Name != nil && result.Name.Value == result.Name.Token.Literal && result.Body == callResult[*ast.BlockStatement]("(*Parser).ParseBlockStatement", 0))
 //@   atcall (*Parser).ParseBlockStatement [ctx.function@C16] sameCtx(p.contextStack, push(old(p.contextStack), FunctionContext))
 //@   atcall (*Parser).ExpectToken [ctx.stable@C16] sameCtx(p.contextStack, old(p.contextStack))
 //@   atcall (*Parser).ParseFunctionParameters [ctx.stable@C16] sameCtx(p.contextStack, old(p.contextStack))
@@ -318,34 +345,42 @@ func lemma_parseFrame_trans(p *Parser) {
 //@   use parseFrame ctxStable
 //@   loop 1 invariant [frame] parserInv(p) && sameCtx(p.contextStack, old(p.contextStack)) && p.currentExpressionPrecedence == old(p.currentExpressionPrecedence) && isPrefixErr(old(p.errors), p.errors)
 
+// Restricted production (ECMA-262 12.10.1): no operand is parsed when the next token is on a new line.
 //@ func (p *Parser) ParseReturnStatement
-//@   props C11 C16
+//@   props C11 C16 C02
 //@   use parseFrame ctxStable
+//@   ensures [restricted@C02] implies(old(p.PeekToken.AfterNewline), ncalls("(*Parser).ParseExpression") == 0)
+//@   ensures [operand@C02] implies(!old(p.PeekToken.AfterNewline) && old(p.PeekToken.Type) != token.SEMICOLON && old(p.PeekToken.Type) != token.EOF && old(p.PeekToken.Type) != token.RBRACE, ncalls("(*Parser).ParseExpression") == 1)
 //@   ensures [err-on-nil] implies(result == nil, len(p.errors) > len(old(p.errors)))
 
 //@ func (p *Parser) ParseIfStatement
-//@   props C11 C16
+//@   props C11 C16 C01
 //@   use parseFrame ctxStable
+//@   ensures [node@C01,C08,C15] implies(result != nil, eq(result.Token, old(p.CurrentToken)))
 //@   ensures [err-on-nil] implies(result == nil, len(p.errors) > len(old(p.errors)))
 
 //@ func (p *Parser) ParseWhileStatement
-//@   props C11 C16
+//@   props C11 C16 C01
 //@   use parseFrame ctxStable
+//@   ensures [node@C01,C08,C15] implies(result != nil, eq(result.Token, old(p.CurrentToken)))
 //@   ensures [err-on-nil] implies(result == nil, len(p.errors) > len(old(p.errors)))
 
 //@ func (p *Parser) ParseForStatement
-//@   props C11 C16
+//@   props C11 C16 C01
 //@   use parseFrame ctxStable
+//@   ensures [node@C01,C08,C15] implies(result != nil, eq(result.Token, old(p.CurrentToken)))
 //@   ensures [err-on-nil] implies(result == nil, len(p.errors) > len(old(p.errors)))
 
 //@ func (p *Parser) ParseBlockStatement
-//@   props C11 C16 C13
+//@   props C11 C16 C13 C01 C15
 //@   use parseFrame
 //@   atcall slotStmtFn [ctx.block@C16] sameCtx(p.contextStack, push(old(p.contextStack), BlockContext))
 //@   loop 1 invariant [frame] parserInv(p) && sameCtx(p.contextStack, push(old(p.contextStack), BlockContext)) && p.currentExpressionPrecedence == old(p.currentExpressionPrecedence) && isPrefixErr(old(p.errors), p.errors)
 //@   loop 1 invariant [block] block != nil && forall(0, len(block.Statements), func(i int) bool { return !isNil(block.Statements[i]) })
 //@   ensures [nonnil] result != nil
 //@   ensures [no-nil-entries@C11] forall(0, len(result.Statements), func(i int) bool { return !isNil(result.Statements[i]) })
+//@   ensures [unclosed@C13,C11] ncalls("(*Parser).AddError") == ite(!p.tolerantMode && p.CurrentToken.Type != token.RBRACE, 1, 0)
+//@   ensures [rbrace@C01,C15] eq(result.RBrace, p.CurrentToken)
 
 //@ func (p *Parser) ParseStatement
 //@   props C11 C16
@@ -357,109 +392,163 @@ func lemma_parseFrame_trans(p *Parser) {
 //@   ensures [err-on-nil] implies(result == nil, len(p.errors) > len(old(p.errors)))
 
 //@ func (p *Parser) ParsePrefixExpression
-//@   props C11 C16 C04
+//@   props C11 C16 C04 C02
 //@   use parseFrame ctxStable
+//@   ensures [unknown-prefix@C11] implies(!old(has(p.prefixParseFns, p.CurrentToken.Type)), isNil(result) && len(p.errors) == len(old(p.errors))+1)
+//@   ensures [dispatch@C02,C04] implies(old(has(p.prefixParseFns, p.CurrentToken.Type)) && ncalls("slotPrefixFn") == 1, result == callResult[ast.Expression]("slotPrefixFn", 0))
+//@   atcall slotPrefixFn [first-token@C04] eq(p.CurrentToken, old(p.CurrentToken)) && eq(p.PeekToken, old(p.PeekToken))
 
 //@ func (p *Parser) ParseInfixExpression
-//@   props C11 C16
+//@   props C11 C16 C02
 //@   use parseFrame ctxStable
+//@   ensures [no-infix@C02] implies(!old(has(p.infixParseFns, p.PeekToken.Type)), result == left && eq(p.PeekToken, old(p.PeekToken)))
+//@   atcall slotInfixFn [operator-current@C02] eq(p.CurrentToken, old(p.PeekToken)) && arg_left == left
 
 //@ func (p *Parser) ParseExpression
-//@   props C11 C16
+//@   props C11 C16 C02
 //@   use parseFrame ctxStable
+//@   ensures [level@C02] ncalls("slotExprFn") == 1 && callArg[int]("slotExprFn", 0, 1) == LOWEST && callArg[*Parser]("slotExprFn", 0, 0) == p && result == callResult[ast.Expression]("slotExprFn", 0)
 
 //@ func (p *Parser) ParseExpressionWithPrecedence
-//@   props C11 C16
+//@   props C11 C16 C02
 //@   use parseFrame ctxStable
+//@   ensures [level@C02] ncalls("slotExprFn") == 1 && callArg[int]("slotExprFn", 0, 1) == precedence && callArg[*Parser]("slotExprFn", 0, 0) == p && result == callResult[ast.Expression]("slotExprFn", 0)
 
+// The climbing loop. It continues only while the next token binds strictly tighter than the requested level (left
+// associativity), never past ';', never across a line break before '(' or '[' in smart-semicolon mode, never across a
+// line break before '++'/'--' (restricted production); it stops only when one of those conditions fails.
 //@ func (p *Parser) ParseRemainingExpressionWithPrecedence
 //@   props C11 C16 C13 C02
 //@   use parseFrame ctxStable
+//@   atcall (*Parser).ParseInfixExpression [climb.strict@C02] p.PeekToken.Type != token.SEMICOLON && precedence < specLevel(p.precedences, p.PeekToken.Type)
+//@   atcall (*Parser).ParseInfixExpression [smart.nocut@C13] !(p.smartSemicolons && p.PeekToken.AfterNewline && (p.PeekToken.Type == token.LPAREN || p.PeekToken.Type == token.LBRACKET))
+//@   atcall (*Parser).ParseInfixExpression [restricted.postfix@C02] !(p.PeekToken.AfterNewline && (p.PeekToken.Type == token.INCREMENT || p.PeekToken.Type == token.DECREMENT))
+//@   ensures [climb.exit@C02,C13] p.PeekToken.Type == token.SEMICOLON || precedence >= specLevel(p.precedences, p.PeekToken.Type) || (p.smartSemicolons && p.PeekToken.AfterNewline && (p.PeekToken.Type == token.LPAREN || p.PeekToken.Type == token.LBRACKET)) || (p.PeekToken.AfterNewline && (p.PeekToken.Type == token.INCREMENT || p.PeekToken.Type == token.DECREMENT))
 //@   loop 1 invariant [frame] parserInv(p) && sameCtx(p.contextStack, old(p.contextStack)) && p.currentExpressionPrecedence == old(p.currentExpressionPrecedence) && isPrefixErr(old(p.errors), p.errors)
 
+// Re-entrant continuation for expression interceptors: the same loop, at the binding power the innermost wrapper published.
 //@ func (p *Parser) ParseRemainingExpression
 //@   props C11 C16 C04
 //@   use parseFrame ctxStable
+//@   ensures [same-level@C04] ncalls("(*Parser).ParseRemainingExpressionWithPrecedence") == 1 && callArg[int]("(*Parser).ParseRemainingExpressionWithPrecedence", 0, 2) == old(p.currentExpressionPrecedence) && callArg[ast.Expression]("(*Parser).ParseRemainingExpressionWithPrecedence", 0, 1) == left && result == callResult[ast.Expression]("(*Parser).ParseRemainingExpressionWithPrecedence", 0)
 
 //@ func (p *Parser) ParseIdentifier
-//@   props C11 C16
-//@   use parseFrame ctxStable
+//@   props C11 C16 C01 C07
+//@   use parseFrame ctxStable exprResult
+//@   ensures [node@C01,C07,C08,C15] isType[*ast.Identifier](result) && !isNil(result) && eq(result.(*ast.Identifier).Token, old(p.CurrentToken)) && result.(*ast.Identifier).Value == old(p.CurrentToken.Literal)
+//@   ensures [no-token@C01] ncalls("(*Parser).NextToken") == 0 && lexer.LexPos(p.lexer) == old(lexer.LexPos(p.lexer))
 
 //@ func (p *Parser) ParseIntegerLiteral
-//@   props C11 C16
-//@   use parseFrame ctxStable
+//@   props C11 C16 C01 C07
+//@   use parseFrame ctxStable exprResult
+//@   ensures [node@C01,C07,C08,C15] implies(!isNil(result), isType[*ast.IntegerLiteral](result) && eq(result.(*ast.IntegerLiteral).Token, old(p.CurrentToken)))
+//@   ensures [no-token@C01] ncalls("(*Parser).NextToken") == 0 && lexer.LexPos(p.lexer) == old(lexer.LexPos(p.lexer))
 
 //@ func (p *Parser) ParseFloatLiteral
-//@   props C11 C16
-//@   use parseFrame ctxStable
+//@   props C11 C16 C01 C07
+//@   use parseFrame ctxStable exprResult
+//@   ensures [node@C01,C07,C08,C15] implies(!isNil(result), isType[*ast.FloatLiteral](result) && eq(result.(*ast.FloatLiteral).Token, old(p.CurrentToken)))
+//@   ensures [no-token@C01] ncalls("(*Parser).NextToken") == 0 && lexer.LexPos(p.lexer) == old(lexer.LexPos(p.lexer))
 
 //@ func (p *Parser) ParseStringLiteral
-//@   props C11 C16
-//@   use parseFrame ctxStable
+//@   props C11 C16 C01 C07
+//@   use parseFrame ctxStable exprResult
+//@   ensures [node@C01,C07,C08,C15] isType[*ast.StringLiteral](result) && !isNil(result) && eq(result.(*ast.StringLiteral).Token, old(p.CurrentToken)) && result.(*ast.StringLiteral).Value == old(p.CurrentToken.Literal)
+//@   ensures [no-token@C01] ncalls("(*Parser).NextToken") == 0 && lexer.LexPos(p.lexer) == old(lexer.LexPos(p.lexer))
 
 //@ func (p *Parser) ParseMultiStringLiteral
-//@   props C11 C16
-//@   use parseFrame ctxStable
+//@   props C11 C16 C01 C07
+//@   use parseFrame ctxStable exprResult
+//@   ensures [node@C01,C07,C08,C15] isType[*ast.MultiStringLiteral](result) && !isNil(result) && eq(result.(*ast.MultiStringLiteral).Token, old(p.CurrentToken)) && result.(*ast.MultiStringLiteral).Value == old(p.CurrentToken.Literal)
+//@   ensures [no-token@C01] ncalls("(*Parser).NextToken") == 0 && lexer.LexPos(p.lexer) == old(lexer.LexPos(p.lexer))
 
 //@ func (p *Parser) ParseBooleanLiteral
-//@   props C11 C16
-//@   use parseFrame ctxStable
+//@   props C11 C16 C01 C07
+//@   use parseFrame ctxStable exprResult
+//@   ensures [node@C01,C07,C08,C15] isType[*ast.BooleanLiteral](result) && !isNil(result) && eq(result.(*ast.BooleanLiteral).Token, old(p.CurrentToken)) && result.(*ast.BooleanLiteral).Value == (old(p.CurrentToken.Type) == token.TRUE)
+//@   ensures [no-token@C01] ncalls("(*Parser).NextToken") == 0 && lexer.LexPos(p.lexer) == old(lexer.LexPos(p.lexer))
 
 //@ func (p *Parser) ParseNullLiteral
-//@   props C11 C16
-//@   use parseFrame ctxStable
+//@   props C11 C16 C01 C07
+//@   use parseFrame ctxStable exprResult
+//@   ensures [node@C01,C07,C08,C15] isType[*ast.NullLiteral](result) && !isNil(result) && eq(result.(*ast.NullLiteral).Token, old(p.CurrentToken))
+//@   ensures [no-token@C01] ncalls("(*Parser).NextToken") == 0 && lexer.LexPos(p.lexer) == old(lexer.LexPos(p.lexer))
 
 //@ func (p *Parser) ParseUnaryExpression
-//@   props C11 C16 C02
-//@   use parseFrame ctxStable
+//@   props C11 C16 C02 C01
+//@   use parseFrame ctxStable exprResult
+//@   ensures [operand.level@C02] ncalls("(*Parser).NextToken") == 1 && ncalls("slotExprFn") == 1 && callOrder("(*Parser).NextToken", 0, "slotExprFn", 0) && callArg[int]("slotExprFn", 0, 1) == UNARY && callArg[*Parser]("slotExprFn", 0, 0) == p
+//@   ensures [node@C01,C08,C15] isType[*ast.UnaryExpression](result) && !isNil(result) && eq(result.(*ast.UnaryExpression).Token, old(p.CurrentToken)) && result.(*ast.UnaryExpression).Operator == old(p.CurrentToken.Literal) && result.(*ast.UnaryExpression).Right == callResult[ast.Expression]("slotExprFn", 0)
 
 //@ func (p *Parser) ParsePostfixExpression
-//@   props C11 C16
-//@   use parseFrame ctxStable
+//@   props C11 C16 C01 C02
+//@   use parseFrame ctxStable exprResult
+//@   ensures [node@C01,C08,C15] isType[*ast.PostfixExpression](result) && !isNil(result) && eq(result.(*ast.PostfixExpression).Token, old(p.CurrentToken)) && result.(*ast.PostfixExpression).Operator == old(p.CurrentToken.Literal) && result.(*ast.PostfixExpression).Left == left
+//@   ensures [no-token@C02] ncalls("(*Parser).NextToken") == 0 && ncalls("slotExprFn") == 0 && lexer.LexPos(p.lexer) == old(lexer.LexPos(p.lexer))
 
 //@ func (p *Parser) ParseGroupedExpression
-//@   props C11 C16
-//@   use parseFrame ctxStable
+//@   props C11 C16 C01 C02
+//@   use parseFrame ctxStable exprResult
+//@   ensures [inner.level@C02] ncalls("(*Parser).ParseExpression") == 1 && ncalls("slotExprFn") == 0
+//@   ensures [node@C01,C08,C15] implies(!isNil(result), isType[*ast.GroupedExpression](result) && eq(result.(*ast.GroupedExpression).Token, old(p.CurrentToken)) && result.(*ast.GroupedExpression).Expression == callResult[ast.Expression]("(*Parser).ParseExpression", 0) && eq(result.(*ast.GroupedExpression).RParen, p.CurrentToken) && p.CurrentToken.Type == token.RPAREN)
 
 //@ func (p *Parser) ParseArrayLiteral
-//@   props C11 C16
-//@   use parseFrame ctxStable
+//@   props C11 C16 C01
+//@   use parseFrame ctxStable exprResult
+//@   ensures [node@C01,C08,C15] isType[*ast.ArrayLiteral](result) && !isNil(result) && eq(result.(*ast.ArrayLiteral).Token, old(p.CurrentToken)) && eq(result.(*ast.ArrayLiteral).RBracket, p.CurrentToken)
 
 //@ func (p *Parser) ParseObjectLiteral
-//@   props C11 C16
-//@   use parseFrame ctxStable
+//@   props C11 C16 C01
+//@   use parseFrame ctxStable exprResult
+//@   ensures [node@C01,C08,C15] implies(!isNil(result), isType[*ast.ObjectLiteral](result) && eq(result.(*ast.ObjectLiteral).Token, old(p.CurrentToken)))
 //@   loop 1 invariant [frame] parserInv(p) && sameCtx(p.contextStack, old(p.contextStack)) && p.currentExpressionPrecedence == old(p.currentExpressionPrecedence) && isPrefixErr(old(p.errors), p.errors) && obj != nil
 
 //@ func (p *Parser) ParseFunctionExpression
-//@   props C11 C16
-//@   use parseFrame
+//@   props C11 C16 C13 C01
+//@   use parseFrame exprResult
+//@   ensures [node@C01,C08,C15] implies(!isNil(result), isType[*ast.FunctionExpression](result) && eq(result.(*ast.FunctionExpression).Token, old(p.CurrentToken)) && result.(*ast.FunctionExpression).Body == callResult[*ast.BlockStatement]("(*Parser).ParseBlockStatement", 0))
 //@   atcall (*Parser).ParseBlockStatement [ctx.function@C16] sameCtx(p.contextStack, push(old(p.contextStack), FunctionContext))
 //@   atcall (*Parser).ExpectToken [ctx.stable@C16] sameCtx(p.contextStack, old(p.contextStack))
 //@   atcall (*Parser).ParseFunctionParameters [ctx.stable@C16] sameCtx(p.contextStack, old(p.contextStack))
 
+// Binary operators are left associative: the right operand is parsed at the operator's own level, read from the
+// per-parser table while the operator is the current token.
 //@ func (p *Parser) ParseBinaryExpression
-//@   props C11 C16 C02
-//@   use parseFrame ctxStable
+//@   props C11 C16 C02 C01 C05
+//@   use parseFrame ctxStable exprResult
+//@   ensures [operand.level@C02,C05] ncalls("(*Parser).NextToken") == 1 && ncalls("slotExprFn") == 1 && callOrder("(*Parser).NextToken", 0, "slotExprFn", 0) && callArg[int]("slotExprFn", 0, 1) == specLevel(p.precedences, old(p.CurrentToken.Type)) && callArg[*Parser]("slotExprFn", 0, 0) == p
+//@   ensures [node@C01,C08,C15] isType[*ast.BinaryExpression](result) && !isNil(result) && eq(result.(*ast.BinaryExpression).Token, old(p.CurrentToken)) && result.(*ast.BinaryExpression).Operator == old(p.CurrentToken.Literal) && result.(*ast.BinaryExpression).Left == left && result.(*ast.BinaryExpression).Right == callResult[ast.Expression]("slotExprFn", 0)
 
+// Assignment is right associative: the value is parsed from the lowest level again.
 //@ func (p *Parser) ParseAssignmentExpression
-//@   props C11 C16 C02
-//@   use parseFrame ctxStable
+//@   props C11 C16 C02 C01
+//@   use parseFrame ctxStable exprResult
+//@   ensures [operand.level@C02] ncalls("(*Parser).NextToken") == 1 && ncalls("(*Parser).ParseExpression") == 1 && ncalls("slotExprFn") == 0 && callOrder("(*Parser).NextToken", 0, "(*Parser).ParseExpression", 0)
+//@   ensures [node@C01,C08,C15] isType[*ast.AssignmentExpression](result) && !isNil(result) && eq(result.(*ast.AssignmentExpression).Token, old(p.CurrentToken)) && result.(*ast.AssignmentExpression).Left == left && result.(*ast.AssignmentExpression).Value == callResult[ast.Expression]("(*Parser).ParseExpression", 0)
 
 //@ func (p *Parser) ParseCompoundAssignmentExpression
-//@   props C11 C16 C02
-//@   use parseFrame ctxStable
+//@   props C11 C16 C02 C01
+//@   use parseFrame ctxStable exprResult
+//@   ensures [operand.level@C02] ncalls("(*Parser).NextToken") == 1 && ncalls("(*Parser).ParseExpression") == 1 && ncalls("slotExprFn") == 0 && callOrder("(*Parser).NextToken", 0, "(*Parser).ParseExpression", 0)
+//@   ensures [node@C01,C08,C15] isType[*ast.CompoundAssignmentExpression](result) && !isNil(result) && eq(result.(*ast.CompoundAssignmentExpression).Token, old(p.CurrentToken)) && result.(*ast.CompoundAssignmentExpression).Left == left && result.(*ast.CompoundAssignmentExpression).Value == callResult[ast.Expression]("(*Parser).ParseExpression", 0)
+//@   ensures [operator@C01] implies(old(p.CurrentToken.Type) == token.PLUS_ASSIGN, result.(*ast.CompoundAssignmentExpression).Operator == "+") && implies(old(p.CurrentToken.Type) == token.MINUS_ASSIGN, result.(*ast.CompoundAssignmentExpression).Operator == "-")
 
 //@ func (p *Parser) ParseCallExpression
-//@   props C11 C16
-//@   use parseFrame ctxStable
+//@   props C11 C16 C01
+//@   use parseFrame ctxStable exprResult
+//@   ensures [node@C01,C08,C15] isType[*ast.CallExpression](result) && !isNil(result) && eq(result.(*ast.CallExpression).Token, old(p.CurrentToken)) && result.(*ast.CallExpression).Function == fn
 
 //@ func (p *Parser) ParseMemberExpression
-//@   props C11 C16 C02
-//@   use parseFrame ctxStable
+//@   props C11 C16 C02 C01
+//@   use parseFrame ctxStable exprResult
+//@   ensures [operand.level@C02] ncalls("(*Parser).NextToken") == 1 && ncalls("slotExprFn") == 1 && callOrder("(*Parser).NextToken", 0, "slotExprFn", 0) && callArg[int]("slotExprFn", 0, 1) == MEMBER && callArg[*Parser]("slotExprFn", 0, 0) == p
+//@   ensures [node@C01,C08,C15] isType[*ast.MemberExpression](result) && !isNil(result) && eq(result.(*ast.MemberExpression).Token, old(p.CurrentToken)) && result.(*ast.MemberExpression).Object == left && !result.(*ast.MemberExpression).Computed && result.(*ast.MemberExpression).Property == callResult[ast.Expression]("slotExprFn", 0)
 
 //@ func (p *Parser) ParseComputedMemberExpression
-//@   props C11 C16
-//@   use parseFrame ctxStable
+//@   props C11 C16 C02 C01
+//@   use parseFrame ctxStable exprResult
+//@   ensures [operand.level@C02] ncalls("(*Parser).ParseExpression") == 1 && ncalls("slotExprFn") == 0
+//@   ensures [node@C01,C08,C15] implies(!isNil(result), isType[*ast.MemberExpression](result) && eq(result.(*ast.MemberExpression).Token, old(p.CurrentToken)) && result.(*ast.MemberExpression).Object == left && result.(*ast.MemberExpression).Computed && result.(*ast.MemberExpression).Property == callResult[ast.Expression]("(*Parser).ParseExpression", 0))
 
 //@ func (p *Parser) ParseExpressionList
 //@   props C11 C16
